@@ -1,14 +1,23 @@
 import PGA.Drv.MolJson
 import PGA.Model.Match
+import PGA.Model.RingAstBridge
 /-! Driver ops of C08.
-`c08.batch` `{asts: [tree…], mols: [graph…], pairs: [[ai, mi]…]}` → `{res: [r…], reads: […], wf: […]}`
-with `r = {m: matches, raw: candidates}` for a readable fragment, `{err: class}` otherwise.
-`c08.read` `{ast}` → summary of the query read from the tree. -/
+`c08.batch` `{asts: [tree | null…], mols: [graph…], pairs: [[ai, mi]…], texts?: [[code points] | null…]}` →
+`{res: [r…], reads: […], wf: […]}` with `r = {m: matches, raw: candidates}` for a readable fragment,
+`{err: class}` otherwise.  With `texts` (aligned with `asts`) every fragment is ALSO read from its text
+through the C09 parser model and the bridge (`PGA.readText`): `treads` = the text path's read summaries
+(`{err: "syntax", line, col}` for a syntax error), `ttree[i]` = the bridged model tree equals the serialised
+implementation tree, `tsame[i]` = the query read from the text equals the query read from that tree; a pair
+whose fragment has no tree, or whose two queries differ, is matched through the text path as well (`tm`, or
+`terr`).
+`c08.read` `{ast}` → summary of the query read from the tree; `c08.read_text` `{t}` → the same from the text;
+`c08.match_text` `{t, mol}` → `{m}` | `{err…}`; `c08.layouts` `{texts: [t…]}` → per text its read summary and
+whether tree and query equal those of the first text. -/
 namespace PGA.Drv.C08
 open Lean PGA PGA.Drv
 
 def errName : ReadErr → String
-  | .reader => "reader" | .notImplemented => "notImplemented" | .shape => "shape" | .internal => "internal"
+  | .reader => "reader" | .notImplemented => "notImplemented" | .shape => "shape"
 
 def consCounts (q : Query) : Json :=
   let all := q.atoms.flatMap (·.chain)
@@ -30,28 +39,117 @@ def readSummary : Except ReadErr Query → Json
       ("bondcons", (q.bonds.map fun b => (Match.bondCons b.spec).length).sum),
       ("cons", consCounts q), ("wf", q.wf)]
 
+def abortName : PGA.Ring.Abort → String
+  | .stuck => "stuck" | .missingRule _ => "missingRule" | .hang => "hang" | .internal _ => "parserInternal"
+
+def textErrJson : TextErr → Json
+  | .syntax l c => Json.mkObj [("err", "syntax"), ("line", Json.num l), ("col", Json.num c)]
+  | .abort a => Json.mkObj [("err", Json.str (abortName a))]
+  | .read e => Json.mkObj [("err", errName e)]
+
+def textSummary : Except TextErr Query → Json
+  | .error e => textErrJson e
+  | .ok q => readSummary (.ok q)
+
+/-- a text as the list of its code points (no JSON string escaping involved) -/
+def textOf (j : Json) : Except String (List Char) := do
+  let a ← j.getArr?
+  a.toList.mapM fun x => do pure (Char.ofNat (← x.getNat?))
+
+def optOf (f : Json → Except String α) (j : Json) : Except String (Option α) :=
+  match j with
+  | .null => pure none
+  | j => do pure (some (← f j))
+
+/-- the query (or reader error) of the text path equals the one of the tree path -/
+def sameRead : Except TextErr Query → Except ReadErr Query → Bool
+  | .ok q, .ok q' => decide (q = q')
+  | .error (.read e), .error e' => decide (e = e')
+  | _, _ => false
+
+def sameText : Except TextErr Query → Except TextErr Query → Bool
+  | .ok q, .ok q' => decide (q = q')
+  | .error (.read e), .error (.read e') => decide (e = e')
+  | .error (.syntax _ _), .error (.syntax _ _) => true     -- the position depends on the layout
+  | _, _ => false
+
+def matchJson (q : Query) (m : Mol) : Json :=
+  let raw := Match.rawMatches q m
+  Json.mkObj [("m", jnatss (Match.pipeline raw q m)), ("raw", jnatss raw)]
+
 def handle (op : String) (j : Json) : Option (Except String Json) :=
   match op with
   | "c08.read" => some do
       let t ← astOfJson (← j.getObjVal? "ast")
       pure (readSummary (readFragment t))
+  | "c08.read_text" => some do
+      pure (textSummary (readText (← textOf (← j.getObjVal? "t"))))
+  | "c08.match_text" => some do
+      let t ← textOf (← j.getObjVal? "t")
+      let m ← molOfJson (← j.getObjVal? "mol")
+      match readText t with
+      | .ok q => pure (matchJson q m)
+      | .error e => pure (textErrJson e)
+  | "c08.layouts" => some do
+      let ts ← (← arr j "texts").toList.mapM textOf
+      match ts with
+      | [] => pure (Json.mkObj [("reads", Json.arr #[]), ("same", Json.arr #[])])
+      | t0 :: _ =>
+        let p0 := parseText t0
+        let r0 := readText t0
+        let same := ts.map fun t =>
+          (match p0, parseText t with
+           | .ok a, .ok b => Ast.same a b
+           | _, _ => false) && sameText r0 (readText t)
+        pure (Json.mkObj [("reads", Json.arr (ts.map fun t => textSummary (readText t)).toArray),
+                          ("same", Json.arr (same.map Json.bool).toArray)])
   | "c08.batch" => some do
-      let asts ← (← arr j "asts").toList.mapM astOfJson
+      let asts ← (← arr j "asts").toList.mapM (optOf astOfJson)
+      let texts : List (Option (List Char)) ← match j.getObjVal? "texts" with
+        | .ok (.arr a) => a.toList.mapM (optOf textOf)
+        | _ => pure (asts.map fun _ => none)
+      if texts.length != asts.length then throw "texts: one entry per tree expected"
       let mols ← (← arr j "mols").toList.mapM molOfJson
-      let qs := (asts.map readFragment).toArray
+      let qs := (asts.map fun a => a.map readFragment).toArray
+      let tqs := (texts.map fun t => t.map readText).toArray
+      let tsame := (List.range asts.length).map fun i =>
+        match tqs[i]?, qs[i]? with
+        | some (some tq), some (some q) => sameRead tq q
+        | _, _ => false
+      let ttree := (List.zip asts texts).map fun
+        | (some a, some t) => (match parseText t with | .ok b => Ast.same a b | .error _ => false)
+        | _ => false
       let ms := mols.toArray
       let pairs ← (← arr j "pairs").toList.mapM natsOf
       let res ← pairs.mapM fun p => match p with
         | [ai, mi] =>
-          match qs[ai]?, ms[mi]? with
-          | some (.ok q), some m =>
-            let raw := Match.rawMatches q m
-            pure (Json.mkObj [("m", jnatss (Match.pipeline raw q m)), ("raw", jnatss raw)])
-          | some (.error e), some _ => pure (Json.mkObj [("err", errName e)])
-          | _, _ => throw "pair index out of range"
+          match qs[ai]?, tqs[ai]?, ms[mi]? with
+          | some oq, some otq, some m =>
+            let base : List (String × Json) := match oq with
+              | some (.ok q) => [("m", jnatss (Match.pipeline (Match.rawMatches q m) q m)), ("raw", jnatss (Match.rawMatches q m))]
+              | some (.error e) => [("err", errName e)]
+              | none => []
+            let viaText : List (String × Json) := match otq with
+              | none => []
+              | some tq =>
+                if tsame.getD ai false then [] else
+                match tq with
+                | .ok q => [("tm", jnatss (queryMatches q m))]
+                | .error e => [("terr", textErrJson e)]
+            pure (Json.mkObj (base ++ viaText))
+          | _, _, _ => throw "pair index out of range"
         | _ => throw "pair: expected [ai, mi]"
+      let reads := qs.toList.map fun
+        | some r => readSummary r
+        | none => Json.null
+      let treads := tqs.toList.map fun
+        | some r => textSummary r
+        | none => Json.null
       pure (Json.mkObj [("res", Json.arr res.toArray),
-                        ("reads", Json.arr (qs.toList.map readSummary).toArray),
+                        ("reads", Json.arr reads.toArray),
+                        ("treads", Json.arr treads.toArray),
+                        ("tsame", Json.arr (tsame.map Json.bool).toArray),
+                        ("ttree", Json.arr (ttree.map Json.bool).toArray),
                         ("wf", Json.arr (mols.map fun m => Json.bool m.wf).toArray)])
   | _ => none
 
